@@ -377,7 +377,7 @@ impl TState<'_> {
                     None => format!("Ok({})", v.show()),
                 },
                 Obs::Shape(s) => format!("Ok with unexpected container: {s}"),
-                Obs::Err(e) => format!("Err({})", first_line(&e.to_string())),
+                Obs::Err(e) => format!("Err({})", err_text(e)),
                 Obs::Panic(p) => format!("PANIC {p}"),
             };
             format!("{} on LEB bytes {}: reference says {}, subject gave {}", entry_name(e), hex::encode(s), exp_s, obs_s)
@@ -387,13 +387,106 @@ impl TState<'_> {
     }
 }
 
-fn first_line(s: &str) -> String {
-    let l = s.lines().next().unwrap_or("");
-    if l.len() > 160 {
-        format!("{}...", &l[..160])
+/// the whole context chain of the error on one line (root cause last), shortened from the left
+fn err_text(e: &candid::Error) -> String {
+    let t = format!("{e:#}").split_whitespace().collect::<Vec<_>>().join(" ");
+    let n = t.chars().count();
+    if n > 240 {
+        format!("...{}", t.chars().skip(n - 240).collect::<String>())
     } else {
-        l.to_string()
+        t
     }
+}
+
+// ------------------------------------------------------------------------------------------
+// proposed fix for types/leb128.rs (see /verif/triage/C09.md). Not part of the verdict: with
+// the hidden flag `--proposed-fix` these two functions replace the subject's
+// `leb128::decode_nat` / `leb128::decode_int` reader entry points, so the same sweep
+// validates the patch that the triage note proposes.
+// ------------------------------------------------------------------------------------------
+mod proposed_fix {
+    use candid::{Error, Result};
+    use std::io;
+    const CONTINUATION_BIT: u8 = 1 << 7;
+    const SIGN_BIT: u8 = 1 << 6;
+
+    pub fn decode_nat<R>(r: &mut R) -> Result<u128>
+    where
+        R: io::Read + ?Sized,
+    {
+        let mut result: u128 = 0;
+        let mut shift: u32 = 0;
+        loop {
+            let mut buf = [0];
+            r.read_exact(&mut buf)?;
+            let low_bits = (buf[0] & !CONTINUATION_BIT) as u128;
+            // the part of this group at or above bit 128 must be zero
+            let fits = if shift >= 128 {
+                low_bits == 0
+            } else if shift + 7 > 128 {
+                low_bits >> (128 - shift) == 0
+            } else {
+                true
+            };
+            if !fits {
+                while buf[0] & CONTINUATION_BIT != 0 {
+                    r.read_exact(&mut buf)?;
+                }
+                return Err(Error::msg("nat overflow"));
+            }
+            if shift < 128 {
+                result |= low_bits << shift;
+            }
+            if buf[0] & CONTINUATION_BIT == 0 {
+                return Ok(result);
+            }
+            shift = shift.saturating_add(7);
+        }
+    }
+
+    pub fn decode_int<R>(r: &mut R) -> Result<i128>
+    where
+        R: io::Read + ?Sized,
+    {
+        let mut result: u128 = 0;
+        let mut shift: u32 = 0;
+        loop {
+            let mut buf = [0];
+            r.read_exact(&mut buf)?;
+            let byte = buf[0];
+            let low_bits = (byte & !CONTINUATION_BIT) as u128;
+            let fits = if shift + 7 <= 128 {
+                result |= low_bits << shift;
+                true
+            } else if shift < 128 {
+                // (shift == 126) bits 126 and 127 are stored; the rest of the group must repeat bit 127
+                let keep = 128 - shift;
+                result |= (low_bits & ((1 << keep) - 1)) << shift;
+                let rest = low_bits >> (keep - 1);
+                rest == 0 || rest == (0x7f >> (keep - 1))
+            } else {
+                // pure sign extension of bit 127
+                low_bits == if result >> 127 == 1 { 0x7f } else { 0 }
+            };
+            if !fits {
+                while buf[0] & CONTINUATION_BIT != 0 {
+                    r.read_exact(&mut buf)?;
+                }
+                return Err(Error::msg("int overflow"));
+            }
+            shift = shift.saturating_add(7);
+            if byte & CONTINUATION_BIT == 0 {
+                if shift < 128 && (byte & SIGN_BIT) == SIGN_BIT {
+                    result |= !0u128 << shift;
+                }
+                return Ok(result as i128);
+            }
+        }
+    }
+}
+static USE_PROPOSED_FIX: std::sync::atomic::AtomicBool = std::sync::atomic::AtomicBool::new(false);
+fn proposed() -> bool {
+    USE_PROPOSED_FIX.load(std::sync::atomic::Ordering::Relaxed)
 }
 
 // ------------------------------------------------------------------------------------------
@@ -474,12 +567,12 @@ fn run_decoder(st: &mut TState, rep: &mut Report, e: usize, s: &[u8], o: &Oracle
                 st.judge(e, s, kl, exp_big(o, &o.s, true), obs, rep)
             }
             2 => {
-                let obs = read_with(&buf, |r| sub_leb::decode_nat(r));
+                let obs = if proposed() { read_with(&buf, |r| proposed_fix::decode_nat(r)) } else { read_with(&buf, |r| sub_leb::decode_nat(r)) };
                 let v = o.u.to_u128();
                 st.judge(e, s, kl, exp_host(o, &v, true), obs, rep)
             }
             _ => {
-                let obs = read_with(&buf, |r| sub_leb::decode_int(r));
+                let obs = if proposed() { read_with(&buf, |r| proposed_fix::decode_int(r)) } else { read_with(&buf, |r| sub_leb::decode_int(r)) };
                 let v = o.s.to_i128();
                 st.judge(e, s, kl, exp_host(o, &v, true), obs, rep)
             }
@@ -604,16 +697,25 @@ fn run_decoder(st: &mut TState, rep: &mut Report, e: usize, s: &[u8], o: &Oracle
 /// and unterminated inputs are embedded only when their last byte is in the pattern alphabet
 /// (the 128 continuation values of the last byte of an unterminated string all end at the end
 /// of the message; each message-level decode costs ~2.5 us, 50x a reader call).
-fn check_input(st: &mut TState, rep: &mut Report, s: &[u8], family: bool) {
+/// `msg_b1_listed` (families of length 18, 21, 40 in the thorough tier; a no-op for the quick
+/// tier's tails): when byte n-1 is a continuation byte, message-level entries run only if it is
+/// one of THOROUGH_MSG_B1.
+fn check_input(st: &mut TState, rep: &mut Report, s: &[u8], family: bool, msg_b1_listed: bool) {
     rep.states += 1;
     let o = oracle(s);
     for e in 0..4 {
         run_decoder(st, rep, e, s, &o);
     }
-    let msg_level = match o.term {
+    let mut msg_level = match o.term {
         None => !family || s.last().map(|b| ALPHA.contains(b)).unwrap_or(true),
         Some(c) => c == s.len() || (family && c + 1 == s.len() && s[c] == 0),
     };
+    if msg_b1_listed && s.len() >= 2 {
+        let b1 = s[s.len() - 2];
+        if b1 >= 0x80 && !THOROUGH_MSG_B1.contains(&b1) {
+            msg_level = false;
+        }
+    }
     if msg_level {
         for e in 4..DEC.len() {
             run_decoder(st, rep, e, s, &o);
@@ -701,7 +803,7 @@ fn run_encoder(st: &mut TState, rep: &mut Report, e: usize, v: &BigInt) -> Optio
     let msg = || {
         let obs_s = match &observed {
             Err(p) => format!("PANIC {p}"),
-            Ok(Err(er)) => format!("Err({})", first_line(&er.to_string())),
+            Ok(Err(er)) => format!("Err({})", err_text(er)),
             Ok(Ok(b)) => hex::encode(b),
         };
         format!("{} on integer {}: reference string {}, subject gave {}", entry_name(ge), v, hex::encode(&expected), obs_s)
@@ -732,7 +834,10 @@ fn encoder_values() -> Vec<BigInt> {
 const ALPHA: [u8; 5] = [0x80, 0xff, 0x81, 0xc0, 0xbf];
 const FAMILY_LENGTHS: [usize; 10] = [7, 8, 9, 10, 11, 18, 19, 20, 21, 40];
 /// quick tier: values of the last-but-one byte of a boundary family (the last byte takes all 256)
-const QUICK_B1: [u8; 17] = [0x00, 0x01, 0x02, 0x03, 0x04, 0x3e, 0x3f, 0x40, 0x41, 0x7c, 0x7d, 0x7e, 0x7f, 0x80, 0x81, 0xfe, 0xff];
+const QUICK_B1: [u8; 16] = [0x00, 0x01, 0x02, 0x03, 0x04, 0x3e, 0x3f, 0x40, 0x41, 0x7c, 0x7d, 0x7e, 0x7f, 0x80, 0xfe, 0xff];
+/// thorough tier, families n = 18, 21, 40: continuation values of byte n-1 for which the
+/// message-level entry points run (the reader entry points see all 65536 tails)
+const THOROUGH_MSG_B1: [u8; 4] = [0x80, 0x81, 0xfe, 0xff];
 
 /// quick tier: values of the last byte when byte n-1 terminates the string (the last byte is
 /// then only a trailing byte after an (n-1)-byte string)
@@ -852,7 +957,7 @@ fn run_all(ctx: &Ctx, only: &[String]) -> RunResult {
         let r = ctx.par_range(&name, total, 4096, || (TState::new(&global), Vec::with_capacity(4)), |(st, s), i, rep| {
             short_string(i, s);
             let s2 = std::mem::take(s);
-            check_input(st, rep, &s2, false);
+            check_input(st, rep, &s2, false, false);
             *s = s2;
         });
         close_level(&name, r, &mut rep, &mut digests);
@@ -866,6 +971,9 @@ fn run_all(ctx: &Ctx, only: &[String]) -> RunResult {
             continue;
         }
         let prefixes = run_patterns(n - 2, 2);
+        // message-level entries see every tail at the 64-bit fast-path boundary and at the
+        // 19/20-byte (128-bit) boundary; for n = 18, 21, 40 only tails whose byte n-1 is listed
+        let full_msg = tier == Tier::Thorough && matches!(n, 7..=11 | 19 | 20);
         let qt = quick_tails();
         let tails: u64 = tier.pick(qt.len() as u64, 65536);
         let total = prefixes.len() as u64 * tails;
@@ -881,11 +989,11 @@ fn run_all(ctx: &Ctx, only: &[String]) -> RunResult {
             s.push(b1);
             s.push(b2);
             let s2 = std::mem::take(s);
-            check_input(st, rep, &s2, true);
+            check_input(st, rep, &s2, true, !full_msg);
             *s = s2;
         });
         close_level(&name, r, &mut rep, &mut digests);
-        scope.insert(name.clone(), json!({"prefix_patterns": prefixes.len(), "tails_per_prefix": tails, "inputs": total}));
+        scope.insert(name.clone(), json!({"prefix_patterns": prefixes.len(), "tails_per_prefix": tails, "inputs": total, "message_level_on_every_tail": full_msg}));
     }
 
     // (iii) unterminated strings of every length 1..=21
@@ -896,7 +1004,7 @@ fn run_all(ctx: &Ctx, only: &[String]) -> RunResult {
             inputs.extend(run_patterns(l, tier.pick(2, 3)));
         }
         let r = ctx.par_range(name, inputs.len() as u64, 64, || TState::new(&global), |st, i, rep| {
-            check_input(st, rep, &inputs[i as usize], false);
+            check_input(st, rep, &inputs[i as usize], false, false);
         });
         close_level(name, r, &mut rep, &mut digests);
         scope.insert(name.to_string(), json!({"inputs": inputs.len(), "max_runs": tier.pick(2, 3)}));
@@ -1127,6 +1235,11 @@ fn parse_args() -> Args {
                 a.replay = args.get(i).cloned();
             }
             "--worker-release" => a.worker = true,
+            "--proposed-fix" => {
+                // diagnostic only (implies worker mode: prints a report, writes no evidence)
+                a.worker = true;
+                USE_PROPOSED_FIX.store(true, std::sync::atomic::Ordering::Relaxed);
+            }
             o => a.only.push(o.to_string()),
         }
         i += 1;
@@ -1283,6 +1396,10 @@ fn main() {
     let ctx = Ctx::new("C09", a.tier, cap + 60);
     let res = run_all(&ctx, &a.only);
     let mut rep = res.rep;
+    if !a.only.is_empty() {
+        rep.notes.push(format!("partial run: only levels starting with {:?} were swept", a.only));
+        rep.level("all-levels", 0, false);
+    }
     let checked = findings_of(&res.agg);
     let checked_cases: u64 = checked.iter().map(|f| f.count).sum();
     for (k, n) in class_counts(&res.agg) {
@@ -1386,7 +1503,7 @@ fn main() {
     let code = finish(
         &ctx,
         rep,
-        "inputs = byte strings: (i) all strings of length <= L (quick L=2, thorough L=3, incl. the empty string), each followed by a sentinel for the reader entry points; (ii) for n in {7,8,9,10,11,18,19,20,21,40}: (one run | two runs with every split point) over {80,ff,81,c0,bf} of length n-2, followed by two free bytes (thorough: all 65536; quick: 17 listed values of byte n-1; byte n takes all 256 values when byte n-1 is a continuation byte and 16 listed values when byte n-1 terminates the string); (iii) all-continuation strings of length 1..21 in run-length form (quick <=2 runs, thorough <=3 runs). Every input goes to the 4 reader entry points; the 13 message-level entry points get it when it is exactly one terminated string, or unterminated (in family ii: only when the last byte is one of the 5 pattern bytes), or (family ii) a terminated string followed by one 00. Encoders: all integers +-2^k+d, |d|<=2, k<=200 on 10 encoder entry points (128-bit ones when in range). Non-trivial = the reference defines a value (terminated string / applicable encoder). A violation key is (entry point, failure class, byte length) with the smallest failing input of that key as the recorded case; all sweeps are repeated by the plain --release build.",
+        "inputs = byte strings: (i) all strings of length <= L (quick L=2, thorough L=3, incl. the empty string), each followed by a sentinel for the reader entry points; (ii) for n in {7,8,9,10,11,18,19,20,21,40}: (one run | two runs with every split point) over {80,ff,81,c0,bf} of length n-2, followed by two free bytes (thorough: all 65536; quick: 16 listed values of byte n-1 (13 terminating ones and 80, fe, ff); byte n takes all 256 values when byte n-1 is a continuation byte and 16 listed values when byte n-1 terminates the string); (iii) all-continuation strings of length 1..21 in run-length form (quick <=2 runs, thorough <=3 runs). Every input goes to the 4 reader entry points; the 13 message-level entry points get it when it is exactly one terminated string, or unterminated (in family ii: only when the last byte is one of the 5 pattern bytes), or (family ii) a terminated string followed by one 00; in the thorough tier for n in {18,21,40} message-level entries additionally require byte n-1 to be < 0x80 or one of {80,81,fe,ff} (the reader entry points still see all 65536 tails). Encoders: all integers +-2^k+d, |d|<=2, k<=200 on 10 encoder entry points (128-bit ones when in range). Non-trivial = the reference defines a value (terminated string / applicable encoder). A violation key is (entry point, failure class, byte length) with the smallest failing input of that key as the recorded case; all sweeps are repeated by the plain --release build.",
         &[
             "refmodel::leb (R6) is a correct reading of LEB128 / SLEB128 in spec/Candid.md",
             "hand-written message templates are validated at start-up against the reference wire decoder R2",
